@@ -26,6 +26,7 @@ import glob
 import importlib
 import json
 import os
+import zlib
 import re
 import sys
 import time
@@ -51,6 +52,7 @@ RULE = (
     "template); distinct by string."
 )
 ASSUMPTIONS = [
+    "every fourth source (by CRC of the text) that the default engine rejects with TemplateSyntaxError is compiled a second time under an engine with debug=True (same outcome demanded)",
     "only parsing/compilation is judged (Template(src), parse_tag, TagAttr.serialize, TagValueStruct.compile); nothing is rendered "
     "except TagValueStruct.resolve of grammar-valid round-trip tags",
     "block nesting depth of templates is not scaled: Django's recursive-descent parser has the same RecursionError limit for stock tags",
@@ -213,9 +215,30 @@ def _direct_call(s):
     return attrs
 
 
+_DEBUG_ENGINE = []
+
+
+def _debug_engine():
+    """The default engine's twin with debug=True (error paths then annotate the exception with the failing token)."""
+    if not _DEBUG_ENGINE:
+        from django.template import engines
+        from django.template.engine import Engine
+
+        e = engines["django"].engine
+        _DEBUG_ENGINE.append(Engine(dirs=e.dirs, app_dirs=False, debug=True, builtins=list(e.builtins), libraries=dict(e.libraries), string_if_invalid=e.string_if_invalid))
+    return _DEBUG_ENGINE[0]
+
+
 def _template_call(src):
     r = _rt()
-    t = r.Template(src)
+    try:
+        t = r.Template(src)
+    except r.TSE:
+        # the same source under engine.debug=True: the error path differs (token / source position annotation), the
+        # outcome must still be TemplateSyntaxError
+        if zlib.crc32(src.encode("utf-8", "surrogatepass")) % 4 == 0:  # every fourth rejected source (a function of the source only)
+            r.Template(src, engine=_debug_engine())
+        raise
     for node in t.nodelist.get_nodes_by_type(r.BaseNode):
         for a in node.params:
             a.value.compile()
